@@ -634,6 +634,7 @@ for n in ("without_eof_is_an_error", "cut_mid_command_is_an_error"):
 
 _CR = dict(_AP); _CR["unwind"] = 70
 _CR["encodes"] = ["patch::ZiPatch::create", "patch::recurse", "patch::PatchChunk (BinWrite / BinRead)", "sqpack::write_data_block_patch", "sqpack::read_data_block_patch"]
+H("C04", "patch", "c04_create_new_tree_empty", bounds="old tree with one file (3 symbolic bytes), new tree an empty directory: exactly one delete-file command", **_CR)
 for n, d in (("file_only_in_new", "added: one add-file command with the new content, no delete"), ("file_only_in_old", "removed: one delete-file command"),
              ("file_in_both", "present in both trees with different contents: rewritten with the new content and NOT deleted")):
     H("C04", "patch", "c04_create_" + n, bounds="trees /a and /b with one file each (names, sizes 3 / 4 concrete; contents symbolic), file x " + d + "; neither tree is modified", **_CR)
